@@ -23,6 +23,8 @@ DNext == k = 0 /\ Why = "" /\ k' = 1 /\ UNCHANGED cid
 DSpec == DInit /\ [][DNext]_dvars
 
 Report == IF k = 1 THEN PrintT(<<"ACC", cid>>)
-          ELSE IF Why # "" THEN PrintT(<<"AT", cid, 1, IF DotWhy(Case.tree, Case.status, Case.obs) # "" THEN "dot" ELSE "list", Why>>)
+          ELSE IF Why # "" THEN PrintT("AT|" \o ToString(cid) \o "|1|"
+                                        \o (IF DotWhy(Case.tree, Case.status, Case.obs) # "" THEN "dot" ELSE "list")
+                                        \o "|" \o Why)
           ELSE TRUE
 =============================================================================
